@@ -203,6 +203,18 @@ def run(chk, replay=None):
     tcases = ampl_run.build_cases(chk, n_synth=30 if tier == "thorough" else 4, configs=lambda r, re_, l: iter([{}]), real=[], which={"formula"},
                                   budget_s=300 if tier == "thorough" else 25, spec_fn=twin_spec)
     tcases = [c for c in tcases if c[3] is not None and len(c[4]["trs"]) <= 48]
+    if tier == "thorough":
+        # five final states (four decay nodes): beyond the bound of the statement's "1..3 decay nodes", judged with every clause
+        fcases = ampl_run.build_cases(chk, n_synth=12, configs=lambda r, re_, l: iter([{}]), real=[], which={"formula"}, budget_s=200,
+                                      spec_fn=lambda r: U.synth_spec(r, nfs=5, maxspin2=2, ntop=1, helset=r.choice(["restricted", "full"])))
+        fcases = [c for c in fcases if c[3] is not None and len(c[4]["trs"]) <= 60]
+        if fcases:
+            tvf, _, fbyid = ampl_run.validate(chk, fcases, name="trace_amplitude_five_body")
+            for clause, rid, info in tvf.rejects:
+                chk.violation(f"{clause}:{'canonical' if fbyid[rid][4]['canonical'] else 'helicity'}:five-body",
+                              f"{clause} rejected for {fbyid[rid][0]}: {str(info)[:600]}", {"label": fbyid[rid][0], "record": fbyid[rid][4]})
+            chk.count(len(fcases))
+            chk.part("five_body", models=len(fcases), chains=tvf.stats.get("chains", 0))
     if tcases:
         tvt, tdrifts, tbyid = ampl_run.validate(chk, tcases, name="trace_amplitude_identical_particles_with_spin")
         not_judged = 0
